@@ -390,6 +390,9 @@ DIRECTED = [
     'r = 0\n    ys = [x1, x2]\n    if x1 > 0:\n        if len(xs1) > 0:\n            r = xs1[0]\n        assert len(xs1) == len(ys)\n    return r',
     'r = 0\n    for i in range(2):\n        if x2 > i:\n            for j in range(1):\n                r = r + j\n            assert len(xs1) == 1\n    return (r, xs1)',
     'r = 0\n    k = 0\n    while k < 2 and x1 > 0:\n        for e in xs1:\n            r = r + e\n        for a, b in zip(xs1, [1, 2, 3]):\n            r = r + a * b\n        with fp.INTEGER:\n            k = k + 1\n    return r',
+    # finite operands under a format whose overflow is a NaN (no infinity) / an infinity / a saturation: the class of the rounded
+    # result has to admit what the format substitutes
+    'with fp.MX_E4M3:\n        a = 1e3 * 1e3\n        b = a + 1\n        c = fp.round(449) + x1 * 0\n    with fp.S1E5M2:\n        d = fp.round(1e9)\n    with fp.MX_E3M2:\n        e = 100 * 100\n    with fp.FP16:\n        g = 1e3 * 1e3\n    return (a, b, c, d, e, g)',
     # constants under nested contexts, redefinition after a copy
     'a = 0.1 + 0.2\n    with C3:\n        b = 0.1 + 0.2\n        with MF:\n            c = b / 3\n    d = a\n    a = x1\n    if x1 > 0:\n        d = 7\n    return (a, b, c, d)',
 ]
